@@ -22,6 +22,14 @@
  * Callbacks are dispatched by TAG through an if-chain (no function pointers), and dirtiness is
  * POLLED after every harness write and every callback (chan->dirty_cb stays NULL), as in C06.
  *
+ * LEAF channels (used by chain.c only; gb_leaf_mode is 0 unless the including harness sets it):
+ * channels registered while gb_leaf_mode != 0 are kept in a separate list.  They may not get a
+ * callback (bay_add_cb_tagged flags gb_bad), are not polled and take no position in the dirty
+ * list (with no dirty callback their position cannot influence anything in the dirty phase);
+ * a dirty leaf is flushed with the rest when the propagation ends.  The sort outputs are
+ * registered like this: sort_cb_input may dirty several of them in one callback, in an order
+ * that depends on symbolic data.
+ *
  * The including TU defines GB_MAXCH and gb_dispatch(tag, chan, arg) before the include, and
  *   #define bay_add_cb(b, t, c, func, a, e) bay_add_cb_tagged(b, t, c, GB_TAG_##func, a, e)
  */
@@ -35,6 +43,9 @@
 #define GB_MAXCH 5
 #endif
 #define GB_MAXCB 2
+#ifndef GB_MAXLEAF
+#define GB_MAXLEAF 2
+#endif
 
 #ifdef REPLAY
 #define GB_PTR_EQ(a, b) ((const void *) (a) == (const void *) (b))
@@ -58,6 +69,10 @@ static int gb_npool;
 static int gb_nq;
 static int gb_bad; /* capacity exceeded / model precondition broken */
 static int gb_ncalls; /* callbacks run in the last propagation */
+
+static struct chan *gb_leaf[GB_MAXLEAF];
+static int gb_nleaf;
+static int gb_leaf_mode; /* set by the harness around the registration of leaf channels */
 
 static int gb_dispatch(int tag, struct chan *chan, void *arg);
 
@@ -83,6 +98,7 @@ bay_init(struct bay *bay)
 	bay->channels = NULL;
 	bay->dirty = NULL;
 	gb_nch = gb_npool = gb_nq = 0;
+	gb_nleaf = 0;
 }
 
 static struct gb_chan *
@@ -102,14 +118,34 @@ bay_find(struct bay *bay, const char *name)
 {
 	(void) bay;
 	struct gb_chan *gc = gb_lookup_name(name);
-	return gc ? gc->chan : NULL;
+	if (gc != NULL)
+		return gc->chan;
+	for (int i = 0; i < GB_MAXLEAF; i++) {
+		if (i >= gb_nleaf)
+			break;
+		if (GB_PTR_EQ(gb_leaf[i]->name, name))
+			return gb_leaf[i];
+	}
+	return NULL;
 }
 
 int
 bay_register(struct bay *bay, struct chan *chan)
 {
-	(void) bay;
-	if (gb_lookup_name(chan->name) != NULL || gb_nch >= GB_MAXCH) {
+	if (bay_find(bay, chan->name) != NULL) {
+		gb_bad = 1;
+		return -1;
+	}
+	if (gb_leaf_mode) {
+		if (gb_nleaf >= GB_MAXLEAF) {
+			gb_bad = 1;
+			return -1;
+		}
+		gb_leaf[gb_nleaf++] = chan;
+		chan_set_dirty_cb(chan, NULL, NULL);
+		return 0;
+	}
+	if (gb_nch >= GB_MAXCH) {
 		gb_bad = 1;
 		return -1;
 	}
@@ -201,6 +237,12 @@ bay_propagate(struct bay *bay)
 		if (chan_flush(gb_ch[i].chan) != 0)
 			return -1;
 		gb_ch[i].qpos = -1;
+	}
+	for (int i = 0; i < GB_MAXLEAF; i++) {
+		if (i >= gb_nleaf)
+			break;
+		if (gb_leaf[i]->is_dirty && chan_flush(gb_leaf[i]) != 0)
+			return -1;
 	}
 	gb_nq = 0;
 	bay->state = BAY_READY;
